@@ -423,6 +423,8 @@ class Interp:
             return self.ctx.decide(z3.Not(z3.fpIsZero(v.e)), "truth")
         if isinstance(v, SymStr):
             return self.truth(v.b)
+        if isinstance(v, SymChoice):
+            return self.truth(v.map(lambda x: bool(x)))
         if isinstance(v, Sym):
             if hasattr(v, "truth"):
                 return v.truth(self)
@@ -446,7 +448,19 @@ class Interp:
         if isinstance(a, Instance) or isinstance(b, Instance):
             return self.inst_eq(a, b)
         if a is None or b is None:
+            if isinstance(a, SymChoice) or isinstance(b, SymChoice):
+                ch = a if isinstance(a, SymChoice) else b
+                return ch.map(lambda x: x is None)
             return False if not (a is None and b is None) else True
+        if isinstance(a, SymChoice) or isinstance(b, SymChoice):
+            if isinstance(a, SymChoice) and isinstance(b, SymChoice):
+                return mk_bool(a.id_term() == b.id_term())
+            ch, other = (a, b) if isinstance(a, SymChoice) else (b, a)
+            if isinstance(other, Sym):
+                return self.py_eq(self.bm.concretize(self, ch), other)
+            if not is_plain(other):
+                return False
+            return ch.eq_const(other)
         if isinstance(a, (SymInt, SymBool)) or isinstance(b, (SymInt, SymBool)):
             if isinstance(a, (SymInt, SymBool, int)) and isinstance(b, (SymInt, SymBool, int)):
                 if isinstance(a, (SymBool, bool)) and isinstance(b, (SymBool, bool)):
